@@ -399,6 +399,78 @@ theorem last_leaves_nothing (G : Codec) (m : Mgr) (c : Chunk) (f : Bytes)
     | errOrder => simp at h
     | errCodec => simp at h
 
+/-! ### DechunkerManager.Close -/
+
+/-- every entry's dechunker carries the entry's key as its stream id -/
+def KeysMatch (m : Mgr) : Prop := ∀ p ∈ m.live, p.2.sid = p.1
+
+theorem writeChunk_sid (G : Codec) (d : Dechunker) (c : Chunk) (h : d.sid = "" ∨ d.sid = c.sid) :
+    (writeChunk G d c).1.sid = c.sid := by
+  unfold writeChunk
+  have hs : ¬ (d.sid ≠ "" ∧ d.sid ≠ c.sid) := by rcases h with h | h <;> simp [h]
+  simp only [hs, if_false]
+  split
+  · rfl
+  · split
+    · rfl
+    · split <;> rfl
+
+theorem mem_erase {l : List (String × Dechunker)} {k : String} {p : String × Dechunker} (h : p ∈ erase l k) :
+    p ∈ l := (List.mem_filter.1 h).1
+
+/-- the command processor keeps keys and stream ids in step -/
+theorem handle_keysMatch (G : Codec) (m : Mgr) (c : Chunk) (h : KeysMatch m) : KeysMatch (handle G m c).1 := by
+  have hl : ∀ d, lookup m.live c.sid = some d → d.sid = c.sid := by
+    intro d hd
+    have : ∀ (l : List (String × Dechunker)), (∀ p ∈ l, p.2.sid = p.1) → lookup l c.sid = some d → d.sid = c.sid := by
+      intro l
+      induction l with
+      | nil => intro _ h; simp [lookup] at h
+      | cons p t ih =>
+        intro hp hlk
+        obtain ⟨k, v⟩ := p
+        simp only [lookup] at hlk
+        by_cases e : k = c.sid
+        · simp [e] at hlk; subst hlk; have := hp (k, v) (by simp); simpa [e] using this
+        · simp [e] at hlk; exact ih (fun q hq => hp q (by simp [hq])) hlk
+    exact this m.live h hd
+  have hd0 : ((lookup m.live c.sid).getD {}).sid = "" ∨ ((lookup m.live c.sid).getD {}).sid = c.sid := by
+    cases hlk : lookup m.live c.sid with
+    | none => left; rfl
+    | some d => right; simpa using hl d hlk
+  have hw := writeChunk_sid G ((lookup m.live c.sid).getD {}) c hd0
+  unfold handle
+  simp only
+  split
+  · intro p hp; exact h p (mem_erase hp)
+  · generalize hwc : writeChunk G ((lookup m.live c.sid).getD {}) c = w at hw
+    obtain ⟨d', r⟩ := w
+    have key : ∀ q ∈ put m.live c.sid d', q.2.sid = q.1 := by
+      intro q hq
+      simp only [put, List.mem_cons] at hq
+      rcases hq with rfl | hq
+      · exact hw
+      · exact h q (mem_erase hq)
+    cases r with
+    | ok l => cases l with
+      | true => intro p hp; exact h p (mem_erase hp)
+      | false => exact key
+    | errStream => exact key
+    | errOrder => exact key
+    | errCodec => exact key
+
+/-- **manager_close.** For a manager driven by the command processor, `Close` empties the map; the
+temp files of the streams that were neither completed nor aborted stay on disk (they are closed,
+not removed). -/
+theorem manager_close (m : Mgr) (h : KeysMatch m) : m.closeAll.1.live = [] ∧ m.closeAll.2 = m.files := by
+  refine ⟨?_, rfl⟩
+  simp only [Mgr.closeAll]
+  rw [List.filter_eq_nil_iff]
+  intro p hp
+  have : m.live.any (fun q => q.2.sid == p.1) = true :=
+    List.any_eq_true.2 ⟨p, hp, by simp [h p hp]⟩
+  simp [this]
+
 /-! ### non-vacuity: concrete traces (short reads, a zero-length read, EOF delivered with
 the final bytes exactly at a chunk boundary) under the driver's codec -/
 
